@@ -2,6 +2,7 @@ import MitumModel.Model.Vote
 import MitumModel.Lemmas.Sort
 import MitumModel.Props.C02
 import MitumModel.Gen.C01
+import MitumModel.Pins
 /-!
 C01  Vote tally decides majority, draw and not-yet correctly.
 -/
@@ -368,9 +369,8 @@ theorem protocol_threshold_above_half (q t10 : Nat) (hq : 0 < q) (ht : 510 ≤ t
 
 /-- ✦ tie to the source: the functions transcribed by the model are the ones in the tree. -/
 theorem source_pinned :
-    Gen.C01.extractErrors = [] ∧ Gen.C01.findMajorityHash = "bd2c5591807280b5" ∧
-    Gen.C01.findVoteResultHash = "a42d39a8f43e0fba" := by
-  refine ⟨by decide, by decide, by decide⟩
+    Gen.C01.extractErrors = [] ∧ Gen.C01.pins = Pins.C01 := by
+  refine ⟨by decide, by decide⟩
 
 /-- the overfull case that the unrepaired code (wrapping `uint` subtraction) got wrong:
     3 facts × 2 votes, quorum 3, threshold 3 is a DRAW. -/
